@@ -22,6 +22,19 @@ func is32BitRegister(regName string) bool {
 	}
 }
 
+// uses16BitAddressRegister は、メモリオペランドが 16 ビットレジスタ (BX, SI など) でアドレス指定されているかを返します。
+// その場合はビットモードに関係なく 16 ビットの ModR/M 表 (Table 2-1) でエンコードされます
+// (32 ビットモードでは ng_operand.Require67h() により 67h が付く)。
+func uses16BitAddressRegister(mem *ng_operand.MemoryInfo) bool {
+	for _, r := range []string{mem.BaseReg, mem.IndexReg} {
+		switch r {
+		case "AX", "CX", "DX", "BX", "SP", "BP", "SI", "DI":
+			return true
+		}
+	}
+	return false
+}
+
 // GenerateModRM はエンコーディング情報とビットモードに基づいてModR/Mバイトを生成する
 func GenerateModRM(operands []string, modRM *asmdb.Encoding, bitMode cpu.BitMode) ([]byte, error) { // Keep cpu.BitMode
 	if modRM == nil || modRM.ModRM == nil {
@@ -250,7 +263,7 @@ func calculateModRM(mem *ng_operand.MemoryInfo, bitMode cpu.BitMode, regBits byt
 	}
 
 	// --- 16-bit Addressing (Table 2-1) ---
-	if bitMode == cpu.MODE_16BIT {
+	if bitMode == cpu.MODE_16BIT || uses16BitAddressRegister(mem) { // 32ビットモードでも [BX+SI] 等は 67h 付きの 16 ビットアドレッシング
 		sibByte = 0 // No SIB in 16-bit mode
 		switch {
 		case mem.BaseReg == "BX" && mem.IndexReg == "SI":
